@@ -1,6 +1,7 @@
 import Gbo.Props.C01
 import Gbo.Proofs.FillRoles
 import Gbo.Proofs.FieldsOp
+import Gbo.Proofs.StripSweep
 /-
   C05 — the four operations are mutually consistent.
 -/
@@ -107,5 +108,12 @@ theorem C05_computeFields_result_differs :
     (computeFields (fillQueue [{ ext := [⟨0,0⟩, ⟨1,0⟩, ⟨0,1⟩, ⟨0,0⟩], holes := [] }] [] .union).fq.arena 0 none .union)[0]!.resTrans
     ≠ (computeFields (fillQueue [{ ext := [⟨0,0⟩, ⟨1,0⟩, ⟨0,1⟩, ⟨0,0⟩], holes := [] }] [] .union).fq.arena 0 none .intersection)[0]!.resTrans := by
   decide +kernel
+
+/-- C05, towards the whole sweep: `divide_segment` neither reads nor writes the fields the operation decides —
+    run on an arena with those fields forgotten it fails or returns exactly as on the original, with the same
+    queue, and the arena it returns is the original's with those fields forgotten. -/
+theorem C05_divideSegment_op_blind (ar : Arith) (cfg : Cfg) (st : SwSt) (seL : Nat) (p : Pt) :
+    divideSegment ar cfg (sSw st) seL p = exMap sSw (divideSegment ar cfg st seL p) :=
+  sA_divideSegment ar cfg st seL p
 
 end Gbo.Props
